@@ -313,7 +313,7 @@ theorem expr_converts_iff_nonempty (env : Env) (t : Ty) (to conv : String) (h : 
   refine ⟨?_, converts_iff_nonempty t cv hc⟩
   simp only [convNames, List.mem_cons, Prod.mk.injEq, List.not_mem_nil, or_false] at h
   rcases h with ⟨rfl, rfl, rfl⟩ | ⟨rfl, rfl, rfl⟩ | ⟨rfl, rfl, rfl⟩ | ⟨rfl, rfl, rfl⟩ | ⟨rfl, rfl, rfl⟩ | ⟨rfl, rfl, rfl⟩ | ⟨rfl, rfl, rfl⟩ | ⟨rfl, rfl, rfl⟩ <;>
-    simp [eval, apply0, convertsOn, hv]
+    simp [eval, isClockFn, apply0, convertsOn, hv]
 
 /-- a conversion function on an empty input is empty, on more than one item an error -/
 theorem expr_conversion_cardinality (env : Env) (t : Ty) (to conv : String) (h : (t, to, conv) ∈ convNames) :
@@ -321,7 +321,7 @@ theorem expr_conversion_cardinality (env : Env) (t : Ty) (to conv : String) (h :
     ∀ a b r, eval env (.fn to .argNil) (a :: b :: r) = .err "not-singleton" := by
   simp only [convNames, List.mem_cons, Prod.mk.injEq, List.not_mem_nil, or_false] at h
   rcases h with ⟨rfl, rfl, rfl⟩ | ⟨rfl, rfl, rfl⟩ | ⟨rfl, rfl, rfl⟩ | ⟨rfl, rfl, rfl⟩ | ⟨rfl, rfl, rfl⟩ | ⟨rfl, rfl, rfl⟩ | ⟨rfl, rfl, rfl⟩ | ⟨rfl, rfl, rfl⟩ <;>
-    simp [eval, apply0, convOn, convertsOn]
+    simp [eval, isClockFn, apply0, convOn, convertsOn]
 
 end Expr
 
